@@ -118,7 +118,10 @@ def case(ctx, rng, idx, state):
     try:
         with monitors.chdir(tmp):
             kw = dict(parallel=False, adpt_num_iter=0, fout_name="c07", print_progress_step_time=1e9)
-            rA = wb.run(system, Grid(system, NKdiv=div, NKFFT=fft), calcs, use_irred_kpt=True, symmetrize=True, **kw)
+            # documented: symmetrize is always True when use_irred_kpt is True, and both default to True
+            flagsA = [dict(use_irred_kpt=True, symmetrize=True), dict(use_irred_kpt=True, symmetrize=False), dict(), dict(symmetrize=False)][idx % 4]
+            ctx.count("irreducible_run_flags_" + ("default" if not flagsA else ",".join(f"{k}={v}" for k, v in sorted(flagsA.items()))))
+            rA = wb.run(system, Grid(system, NKdiv=div, NKFFT=fft), calcs, **flagsA, **kw)
             rB = wb.run(system, Grid(system, NKdiv=div, NKFFT=fft), calcs, use_irred_kpt=False, symmetrize=False, **kw)
             rT = wb.run(twin, Grid(twin, NKdiv=div, NKFFT=fft, use_symmetry=False), calcs, use_irred_kpt=False, symmetrize=False, **kw)
     finally:
